@@ -36,6 +36,31 @@ theorem C12_tables_pinned :
     ∧ Jap.Gen.methodConfigGuard = ["config"]
     ∧ reservedNames = ["config", "subcommand"] := by decide
 
+/-- the statements of `_run_component` (pop `config` / `subcommand`; for a class with a chosen method: pop the method's
+    namespace and its `config`, construct with the remaining keys, return a property's value or call the bound method with
+    the method's namespace; coroutine functions through `asyncio.run`; else call the component with the namespace and
+    RETURN what it returns) and the parser-building calls of `_add_component_to_parser` (class without methods: class
+    arguments without group; class with methods: class arguments as group + required subcommands, one per public method
+    with `--config` and the method's arguments without group; function: function arguments without group; always
+    `sub_configs=True`) are the ones `Jap.Cli.runComponent` / `Jap.Cli.parseComp` transcribe -/
+theorem C12_statements_pinned :
+    Jap.Gen.runComponentStmts
+      = ["cfg.pop('config', None)",
+         "subcommand = cfg.pop('subcommand')",
+         "if inspect.isclass(component) and subcommand:\n    subcommand_cfg = cfg.pop(subcommand, {})\n    subcommand_cfg.pop('config', None)\n    component_obj = component(**cfg)\n    if isinstance(getattr(component, subcommand), property):\n        return getattr(component_obj, subcommand)\n    component = getattr(component_obj, subcommand)\n    cfg = subcommand_cfg",
+         "if inspect.iscoroutinefunction(component):\n    return __import__('asyncio').run(component(**cfg))",
+         "return component(**cfg)"]
+    ∧ Jap.Gen.addComponentCalls
+      = ["kwargs: dict = dict(as_positional=as_positional, fail_untyped=fail_untyped, sub_configs=True)",
+         "parser.add_class_arguments(component, as_group=False, **kwargs)",
+         "parser.add_class_arguments(component, **kwargs)",
+         "parser.add_subcommands(required=True)",
+         "subparser.add_argument('--config', action=ActionConfigFile, help=config_help)",
+         "subparser.add_method_arguments(component, method, as_group=False, **kwargs)",
+         "subcommands.add_subcommand(method, subparser, help=get_help_str(method_object, parser.logger))",
+         "parser.add_function_arguments(component, as_group=False, **kwargs)"] :=
+  ⟨rfl, rfl⟩
+
 def exBody' : Body := fun t _ => match t with
   | .func f => .tok f
   | .init c => .tok c
